@@ -309,7 +309,7 @@ class World(object):
         self.outcomes = {}            # (tag,item) -> [outcome,...]
         self.default_outcome = None   # callable(tag,item,n)
         self.async_pending = []       # (action_ex_id, outcome, ctx)
-        self.async_delay = None       # callable() -> seconds
+        self.async_delay = None       # callable(tag) -> seconds
         self.body_delay = None        # callable(tag,item,n) -> seconds
         self.silent = set()           # action_ex ids whose body never returns
         self._active_node = None
@@ -655,7 +655,7 @@ class World(object):
         if rerun_seen(self, action_ex_id):
             return
         self._async_seen.add(action_ex_id)
-        delay = self.async_delay() if self.async_delay else 0.0
+        delay = self.async_delay(action.tag) if self.async_delay else 0.0
         result = self.make_result(outcome)
 
         def client():
